@@ -14,8 +14,12 @@ Local Open Scope N_scope.
 Section CheckReader.
 Variable D : bytes -> bytes.
 
+(** Go's int64 addition: the mathematical sum reduced into [-2^63, 2^63). *)
+Definition two63Z : Z := 9223372036854775808%Z.
+Definition wrap64 (z : Z) : Z := ((z + two63Z) mod (2 * two63Z) - two63Z)%Z.
+
 Record cr := mkCr {
-  cr_n : Z;            (* r.n  : bytes passed on so far *)
+  cr_n : Z;            (* r.n  : bytes passed on so far (an int64) *)
   cr_acc : bytes;      (* everything written to r.h *)
   cr_want : bytes;     (* r.wantSha256 *)
   cr_wantlen : Z       (* r.wantLen, -1 when no length was declared *)
@@ -38,7 +42,7 @@ Definition cr_read (r : cr) (u : bytes * rstat) : (bytes * cstat) * cr :=
   let '(chunk, st) := u in
   let r1 := match chunk with
             | [] => r
-            | _ => mkCr (cr_n r + lenZ chunk) (cr_acc r ++ chunk) (cr_want r) (cr_wantlen r)
+            | _ => mkCr (wrap64 (cr_n r + lenZ chunk)) (cr_acc r ++ chunk) (cr_want r) (cr_wantlen r)
             end in
   match st with
   | REof =>
